@@ -346,6 +346,11 @@ def _isnone(t):
 POSITIVE = set()      # atom keys assumed > 0 (filled by sva from the sign-assumption table)
 NONNEG = set()
 INTEGER = set()       # atom keys assumed integer valued
+# counts that setigen keeps as Python ints (frame dimensions, filterbank / recording sizes) and package functions returning
+# integer channel indices -- the same domain facts as GE0_PATTERNS uses for their signs
+INTEGER_ATTRS = {'fchans', 'tchans', 'num_taps', 'num_branches', 'num_pols', 'num_bits', 'num_chans', 'num_antennas',
+                 'num_blocks', 'num_subblocks', 'blocks_per_file', 'block_size', 'samples_per_block', 'max_delay', 'start_chan'}
+INTEGER_CALLS = {'frame.Frame.get_index'}
 
 
 def is_positive(t):
@@ -453,7 +458,20 @@ def ge0(t, depth=0):
     return False
 
 
+_NO_RATIO = [False]
+EXACT_RATIOS = []      # quotients a rule may assume to be whole numbers (a stated precondition of the property, e.g. a valid
+                       # GUPPI RAW block holds a whole number of samples per channel): q * <integer> is then an integer
+
+
 def is_integer(t):
+    if EXACT_RATIOS and t.p and not _NO_RATIO[0]:
+        _NO_RATIO[0] = True
+        try:
+            for r_ in EXACT_RATIOS:
+                if t.key == r_.key or is_integer(t / r_):
+                    return True
+        finally:
+            _NO_RATIO[0] = False
     for m, c in t.p.items():
         if c.denominator != 1:
             return False
@@ -462,7 +480,18 @@ def is_integer(t):
                 return False
             if a.key in INTEGER:
                 continue
-            if a.kind == 'call' and a.args[0] in ('round', 'floor', 'ceil', 'trunc', 'len', 'floordiv', 'mod'):
+            if a.kind == 'call' and a.args[0] in ('round', 'floor', 'ceil', 'trunc', 'len', 'floordiv', 'mod', 'size'):
+                continue
+            if a.kind == 'call' and a.args[0] in INTEGER_CALLS:
+                continue
+            if a.kind == 'call' and a.args[0] in ('min', 'max') and a.args[1] and not a.args[2] and \
+                    all(isinstance(x, Term) and is_integer(x) for x in a.args[1]):
+                continue
+            if a.kind == 'call' and a.args[0] == 'astype' and len(a.args[2]) == 1 and a.args[2][0][0] == 'dtype' and \
+                    a.args[2][0][1].single_atom() is not None and a.args[2][0][1].single_atom().kind in ('builtin', 'ext') and \
+                    'int' in str(a.args[2][0][1].single_atom().args[0]):
+                continue
+            if a.kind == 'attr' and a.args[1] in INTEGER_ATTRS:
                 continue
             if a.kind == 'ite' and is_integer(a.args[1]) and is_integer(a.args[2]):
                 continue
@@ -753,6 +782,107 @@ def _array_valued(t, depth=0):
 ATTR_RANK = {'data': 2, 'ts': 1, 'fs': 1, 'v': 1}      # number of axes of the arrays these attributes hold in setigen
 
 
+ELEMENTWISE_RANK = {'abs', 'real', 'imag', 'conj', 'sqrt', 'exp', 'log', 'square', 'astype', 'fft', 'ifft', 'fftshift', 'ifftshift',
+                    'round', 'floor', 'ceil', 'copy', 'nan_to_num', 'clip', 'T'}
+
+
+SHIFT_THROUGH = {'abs', 'real', 'imag', 'conj', 'square', 'exp', 'log', 'astype', 'nan_to_num'}
+
+
+def _int8_valued(t):
+    """items of an array read from bytes as int8 (np.frombuffer(..., dtype=np.int8), reshaped / indexed)"""
+    a = t.single_atom() if isinstance(t, Term) else None
+    while a is not None:
+        if a.kind == 'sub':
+            a = a.args[0].single_atom()
+        elif a.kind == 'call' and a.args[0] in ('reshape', 'T', 'copy') and a.args[1]:
+            a = a.args[1][0].single_atom()
+        elif a.kind == 'call' and a.args[0] == 'frombuffer':
+            d_ = dict(a.args[2]).get('dtype')
+            return d_ is not None and d_.single_atom() is not None and str(d_.single_atom().args[0]).endswith('int8')
+        else:
+            return False
+    return False
+
+
+def _push_shift(fn, x, kwargs, depth=0):
+    """fn(x, **kwargs) for a polynomial / element-wise x, with the shift moved onto the leaves; None when x is a leaf"""
+    if depth > 6:
+        return None
+    a = x.single_atom()
+    if a is not None:
+        if a.kind == 'call' and a.args[0] in ('zeros', 'ones', 'full', 'empty'):
+            return x
+        if a.kind == 'call' and a.args[0] in SHIFT_THROUGH and len(a.args[1]) >= 1:
+            inner = _push_shift(fn, a.args[1][0], kwargs, depth + 1)
+            if inner is None:
+                inner = Term.of(Atom('call', fn, (a.args[1][0],), tuple(kwargs)))
+            return mk_call(a.args[0], [inner] + list(a.args[1][1:]), a.args[2])
+        return None
+    if x.const() is not None:
+        return x
+    out = Term.num(0)
+    for m, c in x.p.items():
+        mono = Term.num(c)
+        for at, e in m:
+            leaf = Term.of(at)
+            sh = _push_shift(fn, leaf, kwargs, depth + 1)
+            if sh is None:
+                sh = Term.of(Atom('call', fn, (leaf,), tuple(kwargs)))
+            mono = mono * sh.pow(e)
+        out = out + mono
+    return out
+
+
+def rank_of(t, depth=0):
+    """number of axes of an array term where it follows from a constructor / reshape / known attribute (None = unknown);
+    scalars broadcast, so the rank of a sum or product is the largest rank among its array-valued factors"""
+    if depth > 8 or not isinstance(t, Term):
+        return None
+    a = t.single_atom()
+    if a is None:
+        rs = [rank_of(Term.of(x), depth + 1) for x in t.atoms()]
+        rs = [r for r in rs if r is not None]
+        return max(rs) if rs else None
+    if a.kind == 'seq':
+        return 1
+    if a.kind == 'attr':
+        return ATTR_RANK.get(a.args[1])
+    if a.kind == 'call' and a.args[0] in ('zeros', 'ones', 'empty', 'full') and a.args[1]:
+        sa = a.args[1][0].single_atom()
+        return len(sa.args) if sa is not None and sa.kind in ('tuple', 'list') else None
+    if a.kind == 'call' and a.args[0] == 'reshape' and len(a.args[1]) >= 2:
+        sa = a.args[1][1].single_atom()
+        if len(a.args[1]) > 2:
+            return len(a.args[1]) - 1
+        return len(sa.args) if sa is not None and sa.kind in ('tuple', 'list') else None
+    if a.kind == 'call' and a.args[0] in ('tile_rows', 'tile_cols'):
+        return 2
+    if a.kind == 'call' and a.args[0] in ELEMENTWISE_RANK and a.args[1]:
+        return rank_of(a.args[1][0], depth + 1)
+    if a.kind == 'ite':
+        r1, r2 = rank_of(a.args[1], depth + 1), rank_of(a.args[2], depth + 1)
+        return r1 if r1 == r2 else None
+    return None
+
+
+def _rank1(t):
+    """t is known to be a one-dimensional array: a linspace/arange sequence, an attribute of rank 1, or a slice of one"""
+    a = t.single_atom() if isinstance(t, Term) else None
+    if a is None:
+        return False
+    if a.kind == 'seq':
+        return True
+    if a.kind == 'attr':
+        return ATTR_RANK.get(a.args[1]) == 1
+    if a.kind == 'sub':
+        ia = a.args[1].single_atom()
+        return ia is not None and ia.kind == 'slice' and _rank1(a.args[0])
+    if a.kind == 'ite':
+        return _rank1(a.args[1]) and _rank1(a.args[2])
+    return False
+
+
 def _elem_rank(t):
     """rank of the items of a list of arrays, when every item is an attribute of known rank (or a comprehension of one)"""
     a = t.single_atom()
@@ -1014,6 +1144,69 @@ def mk_call(fn, args=(), kwargs=()):
     if fn == 'float' and len(args) == 1 and not kwargs and _numeric_like(args[0]) and \
             not any(a.kind == 'sub' for a in args[0].atoms()):
         return args[0]
+    if fn in ('fft', 'ifft', 'fftshift', 'ifftshift', 'sum', 'mean', 'std', 'concatenate', 'flip') and args and kwargs:
+        # a negative axis of an array of known rank is that axis counted from the front
+        for i_, (k_, v_) in enumerate(kwargs):
+            if k_ in ('axis', 'axes') and isinstance(v_, Term) and v_.const() is not None and v_.const() < 0:
+                r_ = rank_of(args[0])
+                if r_ is not None and r_ + v_.const() >= 0:
+                    kwargs = kwargs[:i_] + ((k_, Term.num(r_ + v_.const())),) + kwargs[i_ + 1:]
+    if fn in ('fftshift', 'ifftshift') and len(args) == 1 and isinstance(args[0], Term):
+        # a shift along an axis is a permutation of the items: it commutes with everything element-wise, so it is pushed
+        # through sums, products, powers and element-wise functions down to the arrays it actually permutes
+        # (fftshift(|X|**2 + zeros(s)) == |fftshift(X)|**2 + zeros(s)); constants and constant-filled arrays are invariant
+        pushed = _push_shift(fn, args[0], kwargs)
+        if pushed is not None:
+            return pushed
+    if fn in ('fft', 'ifft') and args and not any(k_ == 'axis' for k_, _ in kwargs):
+        r_ = rank_of(args[0])
+        if r_ is not None and r_ >= 1:
+            return mk_call(fn, args, tuple(kwargs) + (('axis', Term.num(r_ - 1)),))
+    if fn in ('hstack', 'vstack') and len(args) == 1 and not kwargs and args[0].single_atom() is not None and \
+            args[0].single_atom().kind not in ('tuple', 'list', 'comp') and (rank_of(args[0]) or 0) >= 3:
+        # stacking ONE array of three or more axes iterates its first axis: hstack joins the items side by side
+        return mk_call('concatenate', [args[0]], [('axis', Term.num(1 if fn == 'hstack' else 0))])
+    if fn == 'len' and len(args) == 1 and not kwargs and isinstance(args[0], Term) and (
+            args[0].single_atom() is None or (args[0].single_atom().kind == 'call' and args[0].single_atom().args[0] in (
+                'concatenate', 'zeros', 'empty', 'ones', 'full', 'reshape'))):
+        d_ = shape_dim(args[0], 0)
+        if d_ is not None:
+            return d_
+    if fn == 'len' and len(args) == 1 and not kwargs and args[0].single_atom() is not None and \
+            args[0].single_atom().kind == 'call' and args[0].single_atom().args[0] == 'T' and len(args[0].single_atom().args[1]) == 1:
+        # (x.T is the two-dimensional transpose throughout setigen)
+        return mk_sub(mk_call('shape', [args[0].single_atom().args[1][0]]), Term.num(1))
+    if fn == 'binRShift' and len(args) == 2 and not kwargs and args[1].const() is not None and \
+            args[1].const().denominator == 1 and 0 <= args[1].const() <= 62:
+        k_ = int(args[1].const())
+        la_ = args[0].single_atom()
+        if la_ is not None and la_.kind == 'call' and la_.args[0] == 'binLShift' and len(la_.args[1]) == 2 and \
+                la_.args[1][1].const() == k_ == 4 and _int8_valued(la_.args[1][0]):
+            # (x << 4) >> 4 on 8-bit two's complement integers is the sign-extended low nibble of x: written here as the
+            # masked form  n = x - 16*(x // 16); n[n >= 8] -= 16
+            x_ = la_.args[1][0]
+            n_ = x_ - 16 * mk_call('floordiv', [x_, Term.num(16)])
+            mask_ = mk_cmp('>=', n_, Term.num(8))
+            return mk_store(n_, mask_, mk_sub(n_, mask_) - 16)
+        # an arithmetic right shift of a (signed) integer is the floor division by the power of two
+        return mk_call('floordiv', [args[0], Term.num(2 ** k_)])
+    if fn == 'ix_' and len(args) == 2 and not kwargs:
+        # np.ix_(rows, cols) is the open mesh (rows[:, None], cols[None, :])
+        full = mk_slice(NONE, NONE, NONE)
+        return mk_tuple([mk_sub(args[0], mk_tuple([full, NONE])), mk_sub(args[1], mk_tuple([NONE, full]))])
+    if fn == 'diff' and len(args) == 1 and not kwargs and isinstance(args[0], Term):
+        # np.diff(x) of a one-dimensional x is x[1:] - x[:-1] (not applied to values known to have two axes)
+        xa = args[0].single_atom()
+        two_d = xa is not None and ((xa.kind == 'attr' and ATTR_RANK.get(xa.args[1]) == 2) or
+                                    (xa.kind == 'call' and xa.args[0] in ('tile_rows', 'tile_cols', 'meshgrid', 'vstack', 'reshape')))
+        if not two_d:
+            return mk_sub(args[0], mk_slice(Term.num(1), NONE, NONE)) - mk_sub(args[0], mk_slice(NONE, Term.num(-1), NONE))
+    if fn == 'tile' and args and len(args) + len(kwargs) == 2 and (len(args) == 2 or kwargs[0][0] == 'reps'):
+        # np.tile(v, (n, 1)) of a one-dimensional v is the frequency-like grid of np.meshgrid(v, <n values>)
+        reps = (args[1] if len(args) == 2 else kwargs[0][1]).single_atom()
+        if reps is not None and reps.kind in ('tuple', 'list') and len(reps.args) == 2 and reps.args[1].const() == 1 \
+                and _rank1(_strip_array(args[0])):
+            return mk_call('tile_rows', [_strip_array(args[0]), reps.args[0]])
     if fn in ('tile_rows', 'tile_cols') and len(args) == 2 and not kwargs:
         # the replication count of a grid is the number of items of the other (one-dimensional) axis: len == size there
         ca = args[1].single_atom()
@@ -1172,6 +1365,15 @@ def mk_sub(base, idx):
             c = idx.const()
             if c is not None and c.denominator == 1 and -len(at.args) <= c < len(at.args):
                 return at.args[int(c)]
+        if at.kind == 'call' and at.args[0] == 'T' and len(at.args[1]) == 1 and not at.args[2] and ia_ is not None and \
+                ia_.kind == 'tuple' and len(ia_.args) == 2 and ia_.args[0].key == FULL_SLICE_KEY and \
+                ia_.args[1].single_atom() is not None and ia_.args[1].single_atom().kind == 'slice':
+            # x.T[:, a:b] == x[a:b].T   (x.T is the two-dimensional transpose throughout setigen)
+            return mk_call('T', [mk_sub(at.args[1][0], ia_.args[1])])
+        if at.kind == 'call' and at.args[0] == 'shape' and len(at.args[1]) == 1 and not at.args[2] and idx.const() in (0, 1):
+            xa_ = at.args[1][0].single_atom()
+            if xa_ is not None and xa_.kind == 'call' and xa_.args[0] == 'T' and len(xa_.args[1]) == 1:
+                return mk_sub(mk_call('shape', [xa_.args[1][0]]), Term.num(1 - idx.const()))
         if at.kind == 'call' and at.args[0] in ('sort', 'sorted') and len(at.args[1]) == 1 and not at.args[2]:
             # sorted([a, b])[0] == min(a, b), [1] == max(a, b)
             la_ = at.args[1][0].single_atom()
@@ -1273,6 +1475,8 @@ def mk_sub(base, idx):
                 d = shape_dim(at.args[1][0], int(k))
                 if d is not None:
                     return d
+                if k == 0 and not at.args[2]:
+                    return mk_call('len', [at.args[1][0]])      # x.shape[0] is len(x): one spelling
     return Term.of(Atom('sub', base, idx))
 
 
@@ -1290,6 +1494,11 @@ def shape_dim(arr, k):
                     d = shape_dim(Term.of(x), k)
                     if d is not None:
                         return d
+        return None
+    if a.kind == 'ite':
+        d1_, d2_ = shape_dim(a.args[1], k), shape_dim(a.args[2], k)
+        if d1_ is not None and d2_ is not None:
+            return d1_ if d1_.key == d2_.key else mk_ite(a.args[0], d1_, d2_)
         return None
     if a.kind == 'call' and a.args[0] == 'concatenate' and a.args[1] and k in (0, 1):
         # concatenate(A, axis=1) of a 3-d array A iterates its first axis and joins the 2-d items side by side
